@@ -694,7 +694,7 @@ class Gen13(Gen):
         ls = self.vars_of(fn, 'L')
         opts = [(3, 'range-list'), (2, 'product'), (2, 'empty-fill')]
         if ls:
-            opts += [(4, 'slice'), (2, 'len-use'), (2, 'zip-link')]
+            opts += [(4, 'slice'), (2, 'len-use'), (2, 'zip-link'), (4, 'range-affine')]
         if depth > 0:
             opts += [(4, 'branch-size'), (4, 'loop-shrink')]
         k = ch.weighted(opts)
@@ -722,6 +722,24 @@ class Gen13(Gen):
                     out.append(f'{ind}{v} = [{i} for {i} in range({a} + {b})]')
                     n = a + b
             self.bind(fn, v, 'L', n)
+        elif k == 'range-affine':
+            # bounds that are affine in a run-time integer (a length), computed exactly: the length is
+            # static only when the variable part enters both bounds with the same sign
+            l = ch.choice(ls)
+            m, v, i = fn.fresh('m'), self.pick_name(fn, 'L', 'ra'), fn.fresh('i')
+            c = ch.int(4, 10)
+            w = ch.int(0, 4)
+            lo, hi, step = ch.choice([(m, f'{c} - {m}', None), (f'{m} + 1', f'{c} - {m}', None), (f'{c} - {m}', m, '-1'),
+                                      (m, f'{m} + {w}', None), (f'{m} - 1', f'{m} + {w}', None), (f'{c} - {m}', f'{c + w} - {m}', None),
+                                      (f'1 + {m}', f'{c} - {m} - 1', None), (m, f'{c} - {m}', '2')])
+            rng = f'range({lo}, {hi})' if step is None else f'range({lo}, {hi}, {step})'
+            out.append(f'{ind}with fp.REAL:')
+            out.append(f'{ind}    {m} = len({l})')
+            out.append(f'{ind}    {v} = [{i} for {i} in {rng}]')
+            fn.env[m] = 'R'
+            fn.protected.add(m)
+            self.bind(fn, v, 'L', 0)
+            self.features.add('size-affine')
         elif k == 'empty-fill':
             v = fn.fresh('es')
             n = ch.int(0, 3)
@@ -907,6 +925,10 @@ R_POOL = progen.R_POOL + [0, -0.0, float('inf'), float('-inf'), float('nan'), 0.
 def gen_value(ch: Chooser, t, minlen=0, minrow=0):
     if t == 'R':
         return ch.choice(R_POOL)
+    if t == 'I':                      # a small index
+        return ch.int(0, 3)
+    if t == 'J':                      # an upper index, never below an 'I'
+        return ch.int(3, 7)
     if t == 'B':
         return ch.bool()
     if t == 'T':
@@ -1008,6 +1030,40 @@ def main(a0: list[fp.Real], a1: fp.Real) -> fp.Real:
         t = len(vs)
     return len(ys) + len(zs) + len(ws) + len(qs) + t
 ''', [('main', [('a0', 'L'), ('a1', 'R')], {'a0': 1}, {})]),
+    ('size-affine-bounds', '''
+@fp.fpy
+def f0(xs: list[fp.Real], i: fp.Real) -> list[fp.Real]:
+    with fp.REAL:
+        ys = xs[{alo}:{ahi}]
+    return ys
+
+@fp.fpy
+def f1(xs: list[fp.Real], i: fp.Real, j: fp.Real) -> list[fp.Real]:
+    with fp.REAL:
+        ys = xs[i:j]
+        zs = xs[i + 1:len(xs) - i]
+        ws = [k for k in range({alo}, {ahi})]
+    return zs
+
+@fp.fpy(ctx=fp.REAL)
+def f2(xs: list[fp.Real], i: fp.Real) -> list[fp.Real]:
+    ks = [k + 0 for k in range({rlo}, {rhi})]
+    return ks
+
+@fp.fpy(ctx=fp.REAL)
+def f3(xs: list[fp.Real], i: fp.Real) -> list[fp.Real]:
+    return [xs[k] for k in range({an} - i, i, -1)]
+
+@fp.fpy
+def f4(xs: list[fp.Real], i: fp.Real) -> fp.Real:
+    with fp.REAL:
+        n = {an}
+        ys = xs[i:n - i]
+        zs = xs[n - i:n - i + 2]
+    return len(ys) + len(zs)
+''', [('f0', [('xs', 'L'), ('i', 'I')], {'xs': 10}, {}), ('f1', [('xs', 'L'), ('i', 'I'), ('j', 'J')], {'xs': 10}, {}),
+      ('f2', [('xs', 'L'), ('i', 'I')], {'xs': 10}, {}), ('f3', [('xs', 'L'), ('i', 'I')], {'xs': 10}, {}),
+      ('f4', [('xs', 'L'), ('i', 'I')], {'xs': 10}, {})]),
     ('size-loop-shrink', '''
 @fp.fpy
 def main(a0: list[fp.Real], a1: fp.Real) -> fp.Real:
@@ -1247,6 +1303,11 @@ FILL = {
                 'zs = [x + y for e in a0 for x, y in zip(a0, a1)]',
                 'zs = [x + y for x, y in zip(a0, a1)] if a2 > 0 else a0',
                 'zs = [x + y for i in range({trips}) for x, y in zip(a0, a1)]'],
+    'alo': ['i', 'i + 1', '1 + i', 'i', '0'],
+    'ahi': ['{an} - i', 'i + 3', 'len(xs) - i', '{an} - i - 1', '{an} - 1 - i', '3 + i'],
+    'rlo': ['i', 'i + 1', '{an} - i', 'i - 1'],
+    'rhi': ['{an} - i', '10 - i', 'i + 4', '{an} + i'],
+    'an': ['7', '8', '9'],
     'xupd': ['x + 5', 'x * 2', 'x + a0', 'x', '7'],
 }
 
